@@ -1,5 +1,7 @@
 import ZapVerif.Proofs.PoolsStep
 import ZapVerif.Gen.Pools
+import ZapVerif.Proofs.TransJsonEnc
+import ZapVerif.Props.C02
 /-! # C08 — output is independent of logging history and of pooled-object reuse
 
 Model: `Model/Pools.lean` — zap's seven pools as a heap machine in which `sync.Pool.Get` returns `New()` or ANY
@@ -561,5 +563,81 @@ example : last (run Code.real lifo H.empty
 
 -- a real (pooled) Stack satisfies the invariant after a deep capture grew it
 example : ((captureFrom StackObj.fresh (List.replicate 100 7) true).1.storage.length = 128) := by decide +kernel
+
+end ZapVerif.C08
+
+/-! ## the pool discipline of the JSON encoder IS the source (table `Gen/TransJsonEnc.lean`)
+
+`free_sites` and `put_is_last_use` above rest on a syntactic table of call sites.  Here the bodies of `clone`, `Clone`,
+`putJSONEncoder` and `EncodeEntry` of zapcore/json_encoder.go, translated mechanically, are interpreted with the pools
+as recorded intrinsics, and the ORDER of the recorded calls is a theorem:
+
+* `clone`: one `_jsonPool.Get`, configuration / `spaced` / `openNamespaces` copied from the receiver, then one fresh
+  buffer from the buffer pool; nothing of the receiver changes;
+* `Clone`: `clone`, then the receiver's bytes are COPIED into the fresh buffer (the receiver's buffer is only read);
+* `putJSONEncoder`: `reflectBuf.Free()` (only when there is one) BEFORE every field is reset, `_jsonPool.Put` last;
+* `EncodeEntry`: the buffer is read before `putJSONEncoder(final)`, which is the last recorded call. -/
+namespace ZapVerif.C08
+set_option linter.unusedSimpArgs false
+open ZapVerif ZapVerif.GoMini ZapVerif.TransJsonEnc ZapVerif.Gen.TransJsonEnc
+
+theorem clone_exec_matches_source (P : Par) (cfg : List Val) (buf : Bytes) (sp : Bool) (ns : Int) (ocfg : List Val)
+    (obuf : Bytes) (osp : Bool) (ons : Int) (oself : Val) (ev : List Val) (fuel : Nat) :
+    (exec (X P) (fuel + 1) clone_body ⟨[], cloneFld cfg buf sp ns ocfg obuf osp ons oself ev⟩).fin =
+      some ([oself], cloneFld cfg buf sp ns cfg [] sp ns oself
+        (ev ++ [.list [TransJsonEnc.nm "jsonPool.Get"], .list [TransJsonEnc.nm "bufferpool.Get"]])) := by
+  rw [exec_succ]
+  simp [clone_body, nm_jget, nm_get]
+
+theorem clone_matches_source (P : Par) (cfg : List Val) (buf : Bytes) (sp : Bool) (ns : Int) (ocfg : List Val)
+    (obuf : Bytes) (osp : Bool) (ons : Int) (oself : Val) (ev : List Val) (fuel : Nat) :
+    run (X P) (fuel + 1) "clone" [] (cloneFld cfg buf sp ns ocfg obuf osp ons oself ev) =
+      .done [oself] (cloneFld cfg buf sp ns cfg [] sp ns oself
+        (ev ++ [.list [TransJsonEnc.nm "jsonPool.Get"], .list [TransJsonEnc.nm "bufferpool.Get"]])) :=
+  run_of_fin (X P) _ _ Gen.TransJsonEnc.clone [] _ _ _ rfl rfl
+    (clone_exec_matches_source P cfg buf sp ns ocfg obuf osp ons oself ev fuel)
+
+/-- `Clone`: the clone holds a COPY of the receiver's bytes in its own fresh buffer; the receiver is unchanged -/
+theorem Clone_matches_source (P : Par) (cfg : List Val) (buf : Bytes) (sp : Bool) (ns : Int) (ocfg : List Val)
+    (obuf : Bytes) (osp : Bool) (ons : Int) (oself : Val) (ev : List Val) (fuel : Nat) :
+    run (X P) (fuel + 2) "Clone" [] (cloneFld cfg buf sp ns ocfg obuf osp ons oself ev) =
+      .done [oself] (cloneFld cfg buf sp ns cfg buf sp ns oself
+        (ev ++ [.list [TransJsonEnc.nm "jsonPool.Get"], .list [TransJsonEnc.nm "bufferpool.Get"]])) := by
+  refine run_of_fin (X P) _ _ Gen.TransJsonEnc.Clone [] _ _ _ rfl rfl ?_
+  show (exec (X P) (fuel + 2) Clone_body ⟨[], _⟩).fin = _
+  have hcall : ∀ σ : State, retK σ [.blank] "clone"
+      (exec (X P) (fuel + 1) clone_body ⟨[], cloneFld cfg buf sp ns ocfg obuf osp ons oself ev⟩) = _ :=
+    fun σ => retK_of_fin1 σ _ _ _ _ _ (clone_exec_matches_source P cfg buf sp ns ocfg obuf osp ons oself ev fuel)
+  rw [exec_succ]
+  simp [Clone_body, hcall, State.assign1]
+
+/-- `putJSONEncoder`: the scratch buffer is freed first (iff there is one), every field is reset, `Put` is last -/
+theorem putJSONEncoder_matches_source (P : Par) (cfg bufp : List Val) (sp : Bool) (ns : Int) (rbuf renc : List Val)
+    (self : Val) (ev : List Val) (fuel : Nat) :
+    run (X P) (fuel + 1) "putJSONEncoder" [] (putFld cfg bufp sp ns rbuf renc self ev) =
+      .done [] (putFld [] [] false 0 [] [] self
+        (ev ++ (if rbuf.isEmpty then [] else [.list [TransJsonEnc.nm "Buffer.Free", .list rbuf]]) ++
+          [.list [TransJsonEnc.nm "jsonPool.Put", self]])) := by
+  refine run_of_fin (X P) _ _ Gen.TransJsonEnc.putJSONEncoder [] _ _ _ rfl rfl ?_
+  show (exec (X P) (fuel + 1) putJSONEncoder_body ⟨[], _⟩).fin = _
+  rw [exec_succ]
+  cases rbuf with
+  | nil => simp [putJSONEncoder_body, nm_jput]
+  | cons a r =>
+    have hpos : ¬ ((r.length : Int) + 1 = 0) := by omega
+    simp [putJSONEncoder_body, nm_jput, nm_free, hpos]
+
+/-- `EncodeEntry` (from `C02.EncodeEntry_matches_source`): the returned buffer is the clone's buffer as it was when
+    `ret := final.buf` ran; the only pool-relevant calls are the clone at the start and `putJSONEncoder(final)`, which is
+    the LAST recorded call — no use of `final` follows it -/
+theorem EncodeEntry_put_is_last_use (P : Par) (c : ECfg) (e : EEnt) (fields : Val) (b0 : Bytes) (sp0 : Bool) (ns0 : Int)
+    (rb0 re0 : List Val) (obuf : Bytes) (osp : Bool) (ons : Int) (self : Val) (ev : List Val) (fuel : Nat) :
+    ∃ (line : Bytes) (fl : Env) (rb : List Val),
+      run (X P) (fuel + 1) "EncodeEntry" [e.val, fields] (eeFld c b0 sp0 ns0 rb0 re0 obuf osp ons self ev) =
+        .done [.bytes line, .list []] fl ∧
+      fl.get "buf" = some (.bytes line) ∧ fl.get "o.buf" = some (.bytes obuf) ∧
+      fl.get "ev" = some (.list (ev ++ [.list [TransJsonEnc.nm "jsonEncoder.clone", .bool osp, .int ons],
+                                        .list [TransJsonEnc.nm "putJSONEncoder", .list rb, self]])) :=
+  ⟨_, _, _, C02.EncodeEntry_matches_source P c e fields b0 sp0 ns0 rb0 re0 obuf osp ons self ev fuel, rfl, rfl, rfl⟩
 
 end ZapVerif.C08
